@@ -2397,7 +2397,11 @@ class Array:
             self._qdata = np.empty((0, self.rank), np.intp)
             self._qdata_sorted = True
             return self
-        return self.iunary_blockwise(np.multiply, prefactor)
+        self.iunary_blockwise(np.multiply, prefactor)
+        if len(self._data) == 0:
+            # no block to read the new dtype from: same dtype as the compiled version gives
+            self.dtype = np.result_type(self.dtype, prefactor)
+        return self
 
     def __add__(self, other):
         """Return ``self + other``."""
